@@ -285,6 +285,15 @@ func propC01(r *Run) {
 				}
 			}
 		}
+		if !faultRun && r.Choose("two-writer-race", 3) == 0 {
+			w.raceClause(users)
+			for _, mu := range sortedKeys(w.model) {
+				if w.model[mu].Supported {
+					w.checkAuth("C01", r.Choose("inst", ninst), mu, w.model[mu].PW)
+				}
+			}
+			w.checkListExists(0)
+		}
 		r.Steps += nops
 		if writes >= 2 {
 			r.Nontrivial(fmt.Sprintf("%s|%v", cfg.Desc(), hist))
